@@ -10,8 +10,10 @@ BASELINE = ("NO TRANSPORT FAULT applies to this property (its quantifier has non
 
 ENV = (" Execution environments (every check, one case in ten): the case runs right after an operation the library "
        "refused on the same thread (caught panic of an oversize AVP / message / hide, a writer that is full, a rejected "
-       "decode) and/or inside a destructor while the thread unwinds from an unrelated panic; the environment is part of "
-       "the replay case. Seams: re-entrant readers and writers (the seam uses the library itself in the middle of a "
+       "decode) and/or inside a destructor while the thread unwinds from an unrelated panic, after hundreds to tens of "
+       "thousands of repetitions of one operation, after a warm-up and a jump of the simulated clock, or from inside a "
+       "seam call (Reader / Writer method) of another encode or decode in progress on the same thread; the environment "
+       "is part of the replay case. Seams: re-entrant readers and writers (the seam uses the library itself in the middle of a "
        "request), writers that report positions beyond 2^32, messages followed by 64 KiB or more, sparse readers of "
        "astronomical length, read faults (declined bytes() requests) under a narrow relaxed oracle.")
 
